@@ -180,6 +180,18 @@ func classify(c *harness.C, scheme string, n, thr int, caps []capMsg) {
 		if bc != m.Bcast {
 			c.Violation("classification-agrees-with-routing", "c19-classification-differs:"+scheme+":"+short, fmt.Sprintf("%s n=%d t=%d: %s is routed by the library with broadcast=%v but classified broadcast=%v", scheme, n, thr, url, m.Bcast, bc), rp)
 		}
+		// the receiver classifies on an adapter that is inside a session (as the orchestrator
+		// does): whatever the committee looks like, the verdict is the same
+		for _, committee := range [][]uint16{{1, 2}, {2, 1}, {1, 2, 3}, {3, 1, 2}, {2, 5, 9, 300}} {
+			live := newAdapter(scheme, committee[0])
+			live.Init(committee, 1, func([]byte, bool, uint16) {})
+			r2, b2, e2 := live.ClassifyMsg(m.Data)
+			c.Add("evaluations", 1)
+			if e2 != nil || r2 != round || b2 != bc {
+				c.Violation("classification-agrees-with-routing", "c19-classification-depends-on-session:"+scheme+":"+short, fmt.Sprintf("%s: %s is classified (round %d, broadcast=%v, err=%v) by an adapter initialised with committee %v, but (round %d, broadcast=%v) by a fresh one; the library routes it with broadcast=%v", scheme, url, r2, b2, e2, committee, round, bc, m.Bcast), rp)
+				break
+			}
+		}
 		if m.Bcast {
 			if byPhase[m.Phase] == nil {
 				byPhase[m.Phase] = map[string]uint8{}
@@ -255,6 +267,14 @@ func senderBinding(c *harness.C, scheme string, n, thr int, caps []capMsg) {
 	for i, m := range committee {
 		pos[m] = i
 	}
+	// the committee is handed to Init in several orders (the library sorts the parties by key, so
+	// the position of a member in the ascending committee is its index whatever the order)
+	rev := append([]uint16(nil), committee...)
+	for i, j := 0, len(rev)-1; i < j; i, j = i+1, j-1 {
+		rev[i], rev[j] = rev[j], rev[i]
+	}
+	rot := append(append([]uint16(nil), committee[1:]...), committee[0])
+	orders := [][]uint16{committee, rev, rot}
 	seenType := map[string]bool{}
 	for _, m := range caps {
 		url := typeURL(m.Data)
@@ -262,25 +282,42 @@ func senderBinding(c *harness.C, scheme string, n, thr int, caps []capMsg) {
 			continue
 		}
 		seenType[url] = true
-		for _, b := range senders {
-			recv := newAdapter(scheme, committee[0])
-			recv.Init(committee, thr, func([]byte, bool, uint16) {})
-			recv.OnMsg(m.Data, b, m.Bcast)
-			c.Add("evaluations", 1)
-			queued, ok := inboundOf(recv)
-			if !ok {
-				c.Note("c19-inbound-queue", "adapter's inbound queue not reachable by reflection: sender-binding clause skipped")
-				return
-			}
-			for _, q := range queued {
-				p, member := pos[b]
-				switch {
-				case q.key != b:
-					c.Violation("sender-binding", "c19-message-attributed-to-other-sender:"+scheme, fmt.Sprintf("%s: a message delivered by %d reached the library attributed to key %d", scheme, b, q.key), replay{scheme, n, thr, "sender-binding"})
-				case member && q.index != p:
-					c.Violation("sender-binding", "c19-message-attributed-to-other-index:"+scheme, fmt.Sprintf("%s: a message delivered by member %d (position %d of %v) reached the library with index %d", scheme, b, p, committee, q.index), replay{scheme, n, thr, "sender-binding"})
-				case !member && q.index >= 0 && q.index < len(committee):
-					c.Violation("sender-binding", "c19-non-member-attributed-to-member:"+scheme, fmt.Sprintf("%s: a message delivered by %d, which is not in the committee %v, reached the library with index %d, i.e. attributed to member %d", scheme, b, committee, q.index, committee[q.index]), replay{scheme, n, thr, "sender-binding"})
+		for oi, listed := range orders {
+			for _, b := range senders {
+				recv := newAdapter(scheme, committee[0])
+				recv.Init(listed, thr, func([]byte, bool, uint16) {})
+				recv.OnMsg(m.Data, b, m.Bcast)
+				c.Add("evaluations", 1)
+				queued, ok := inboundOf(recv)
+				if !ok {
+					c.Note("c19-inbound-queue", "adapter's inbound queue not reachable by reflection: sender-binding clause skipped")
+					return
+				}
+				sfx := ""
+				if oi > 0 {
+					sfx = ":committee-listed-unsorted"
+				}
+				_, member := pos[b]
+				if member && b != committee[0] && len(queued) == 0 && oi > 0 {
+					// compare with the ascending listing: a member's message that is queued there
+					// must be queued here as well (dropping it silently starves the session)
+					ref := newAdapter(scheme, committee[0])
+					ref.Init(committee, thr, func([]byte, bool, uint16) {})
+					ref.OnMsg(m.Data, b, m.Bcast)
+					if rq, ok := inboundOf(ref); ok && len(rq) > 0 {
+						c.Violation("sender-binding", "c19-member-message-dropped"+sfx+":"+scheme, fmt.Sprintf("%s: a message delivered by member %d is handed to the library when the committee is listed as %v but dropped when it is listed as %v", scheme, b, committee, listed), replay{scheme, n, thr, "sender-binding"})
+					}
+				}
+				for _, q := range queued {
+					p, member := pos[b]
+					switch {
+					case q.key != b:
+						c.Violation("sender-binding", "c19-message-attributed-to-other-sender"+sfx+":"+scheme, fmt.Sprintf("%s: a message delivered by %d reached the library attributed to key %d (committee listed as %v)", scheme, b, q.key, listed), replay{scheme, n, thr, "sender-binding"})
+					case member && q.index != p:
+						c.Violation("sender-binding", "c19-message-attributed-to-other-index"+sfx+":"+scheme, fmt.Sprintf("%s: a message delivered by member %d (position %d of the ascending committee %v, listed as %v) reached the library with index %d", scheme, b, p, committee, listed, q.index), replay{scheme, n, thr, "sender-binding"})
+					case !member && q.index >= 0 && q.index < len(committee):
+						c.Violation("sender-binding", "c19-non-member-attributed-to-member"+sfx+":"+scheme, fmt.Sprintf("%s: a message delivered by %d, which is not in the committee %v, reached the library with index %d, i.e. attributed to member %d", scheme, b, committee, q.index, committee[q.index]), replay{scheme, n, thr, "sender-binding"})
+					}
 				}
 			}
 		}
